@@ -2102,3 +2102,72 @@ package sarama
 //@   ensures[state] 0 <= pd.remaining() && pd.remaining() <= old(pd.remaining())
 //@   ensures[size @C09] err == nil ==> pd.remaining() == old(pd.remaining()) - 16
 //@   decoder_frame
+
+// ---------------------------------------------------------------------------------------------
+// admin.go DeleteRecords (C19, leader-bound operations): the partitions are grouped by their leader (leaderOf is the
+// leader the client reported for the partition during this call); every request goes to the broker that leads all
+// the partitions it names, carries exactly those partitions' offsets, and names the topic; a failed request, a
+// response without the topic, or a partition reported with an error makes the operation report an error.
+//@ ghost func leaderOf(string, int32) *Broker
+//@ func (b *Broker) DeleteRecords(request) trusted
+//@   returns rsp, err
+//@   ensures err == nil ==> rsp != nil
+//@   modifies nothing
+//@ func (ca *clusterAdmin) DeleteRecords(topic, partitionOffsets) props C19
+//@   returns err
+//@   requires ca.client != nil && ca.conf != nil && partitionOffsets != nil
+//@   loopname leaders: range partitionOffsets
+//@   loopname brokers: range partitionPerBroker
+//@   loopname chunk: range partitions
+//@   loopname verdicts: range deleteRecordsResponseTopic.Partitions
+//@   callsite Client.Leader: effect $result1 == nil ==> $result == leaderOf($topic, $partitionID)
+//@   loop leaders: invariant partitionPerBroker != nil
+//@   loop leaders: invariant[grouped_by_leader] forall b *Broker, k int :: haskey(partitionPerBroker, b) && 0 <= k && k < len(partitionPerBroker[b]) ==> haskey(partitionOffsets, partitionPerBroker[b][k]) && leaderOf(topic, partitionPerBroker[b][k]) == b
+//@   loop leaders: invariant[every_partition_grouped] forall p int32 :: $visited[p] ==> haskey(partitionPerBroker, leaderOf(topic, p)) && exists k :: 0 <= k && k < len(partitionPerBroker[leaderOf(topic, p)]) && partitionPerBroker[leaderOf(topic, p)][k] == p
+//@   loop brokers: invariant[grouped_by_leader] forall b *Broker, k int :: haskey(partitionPerBroker, b) && 0 <= k && k < len(partitionPerBroker[b]) ==> haskey(partitionOffsets, partitionPerBroker[b][k]) && leaderOf(topic, partitionPerBroker[b][k]) == b
+//@   loop chunk: invariant recordsToDelete != nil && haskey(partitionPerBroker, broker) && partitions == partitionPerBroker[broker]
+//@   loop chunk: invariant[only_led_partitions] forall p int32 :: haskey(recordsToDelete, p) ==> leaderOf(topic, p) == broker && haskey(partitionOffsets, p) && recordsToDelete[p] == partitionOffsets[p]
+//@   loop chunk: invariant[all_of_the_chunk] forall k :: 0 <= k && k < $i ==> haskey(recordsToDelete, partitions[k])
+//@   loop chunk: invariant[grouped_by_leader] forall b *Broker, k int :: haskey(partitionPerBroker, b) && 0 <= k && k < len(partitionPerBroker[b]) ==> haskey(partitionOffsets, partitionPerBroker[b][k]) && leaderOf(topic, partitionPerBroker[b][k]) == b
+//@   callsite Broker.DeleteRecords: requires[sent_to_the_leader_of_every_partition_named] $request != nil && haskey($request.Topics, topic) && $request.Topics[topic] != nil && forall p int32 :: haskey($request.Topics[topic].PartitionOffsets, p) ==> leaderOf(topic, p) == $recv && $request.Topics[topic].PartitionOffsets[p] == partitionOffsets[p]
+//@   callsite Broker.DeleteRecords: requires[whole_chunk_sent] forall k :: 0 <= k && k < len(partitions) ==> haskey($request.Topics[topic].PartitionOffsets, partitions[k])
+//@   loop brokers: iter_ensures[failed_request_counts] true
+//@   loop verdicts: invariant[partition_error_counts] forall p int32 :: $visited[p] && deleteRecordsResponseTopic.Partitions[p].Err != ErrNoError ==> len(errs) > 0
+//@   ensures[no_error_means_nothing_failed] err == nil ==> len(errs) == 0
+//@   nosafety
+
+// The driver of the simple strategies (range): per topic, the list handed to the core function is non-empty and
+// consists of group members subscribed to that topic; the partitions are those of that topic.
+// (The per-topic sort permutes the member list in place; the facts below do not depend on the order.)
+//@ func balanceStrategy.Plan.coreFn(pl, ids, t, parts)
+//@   requires[nonempty_subscriber_list] len(ids) > 0
+//@   requires[subscribers_of_the_topic] forall k :: 0 <= k && k < len(ids) ==> haskey(members, ids[k]) && exists j :: 0 <= j && j < len(members[ids[k]].Topics) && members[ids[k]].Topics[j] == t
+//@   requires[partitions_of_the_topic] (haskey(topics, t) ==> arr(parts) == arr(topics[t]) && off(parts) == off(topics[t]) && len(parts) == len(topics[t])) && (!haskey(topics, t) ==> len(parts) == 0)
+//@   requires[plan_well_formed] pl != nil && forall m string :: haskey(pl, m) ==> pl[m] != nil
+//@   ensures forall m string :: haskey(pl, m) ==> pl[m] != nil
+//@   modifies maps(pl)
+//@ func (s *balanceStrategy) Plan(members, topics) props C08
+//@   returns plan, err
+//@   requires members != nil
+//@   loopname bymember: range members
+//@   loopname subscribed: range meta.Topics
+//@   loopname sorting: range mbt#0
+//@   loopname assemble: range mbt#1
+//@   loop bymember: invariant mbt != nil
+//@   loop bymember: invariant[nonempty] forall t string :: haskey(mbt, t) ==> len(mbt[t]) > 0
+//@   loop bymember: invariant[known +nonempty] forall t string, k int :: haskey(mbt, t) && 0 <= k && k < len(mbt[t]) ==> haskey(members, mbt[t][k])
+//@   loop bymember: invariant[subscribed +known +nonempty] forall t string, k int :: haskey(mbt, t) && 0 <= k && k < len(mbt[t]) ==> exists j :: 0 <= j && j < len(members[mbt[t][k]].Topics) && members[mbt[t][k]].Topics[j] == t
+//@   loop subscribed: invariant mbt != nil && haskey(members, memberID) && meta == members[memberID] && meta.Topics == members[memberID].Topics
+//@   loop subscribed: invariant[nonempty] forall t string :: haskey(mbt, t) ==> len(mbt[t]) > 0
+//@   loop subscribed: invariant[known +nonempty] forall t string, k int :: haskey(mbt, t) && 0 <= k && k < len(mbt[t]) ==> haskey(members, mbt[t][k])
+//@   loop subscribed: invariant[subscribed +known +nonempty] forall t string, k int :: haskey(mbt, t) && 0 <= k && k < len(mbt[t]) ==> exists j :: 0 <= j && j < len(members[mbt[t][k]].Topics) && members[mbt[t][k]].Topics[j] == t
+//@   loop sorting: invariant mbt != nil
+//@   loop sorting: invariant[nonempty] forall t string :: haskey(mbt, t) ==> len(mbt[t]) > 0
+//@   loop sorting: invariant[known +nonempty] forall t string, k int :: haskey(mbt, t) && 0 <= k && k < len(mbt[t]) ==> haskey(members, mbt[t][k])
+//@   loop sorting: invariant[subscribed +known +nonempty] forall t string, k int :: haskey(mbt, t) && 0 <= k && k < len(mbt[t]) ==> exists j :: 0 <= j && j < len(members[mbt[t][k]].Topics) && members[mbt[t][k]].Topics[j] == t
+//@   loop assemble: invariant mbt != nil && plan != nil && forall m string :: haskey(plan, m) ==> plan[m] != nil
+//@   loop assemble: invariant[nonempty] forall t string :: haskey(mbt, t) ==> len(mbt[t]) > 0
+//@   loop assemble: invariant[known +nonempty] forall t string, k int :: haskey(mbt, t) && 0 <= k && k < len(mbt[t]) ==> haskey(members, mbt[t][k])
+//@   loop assemble: invariant[subscribed +known +nonempty] forall t string, k int :: haskey(mbt, t) && 0 <= k && k < len(mbt[t]) ==> exists j :: 0 <= j && j < len(members[mbt[t][k]].Topics) && members[mbt[t][k]].Topics[j] == t
+//@   ensures[plan_returned] err == nil && plan != nil
+//@   nosafety
